@@ -10,6 +10,7 @@ import re
 import shutil
 import subprocess
 import sys
+import threading
 
 sys.path.insert(0, os.path.dirname(os.path.dirname(os.path.abspath(__file__))))
 import kv
@@ -44,11 +45,20 @@ debug = false
 
 
 def write_if_changed(path, text):
-    if os.path.exists(path) and open(path).read() == text:
-        return
+    """Leave the file alone when it already holds `text`; otherwise replace it ATOMICALLY (a
+    producer of the other profile, or another check, may be compiling this crate right now: it must
+    never see a truncated file)."""
+    try:
+        with open(path) as f:
+            if f.read() == text:
+                return
+    except (OSError, UnicodeDecodeError):
+        pass
     os.makedirs(os.path.dirname(path), exist_ok=True)
-    with open(path, "w") as f:
+    tmp = "%s.tmp.%d.%d" % (path, os.getpid(), threading.get_ident())
+    with open(tmp, "w") as f:
         f.write(text)
+    os.replace(tmp, path)
 
 
 def make_crate(name, bins, features=("rust_1_83", "alloc")):
@@ -56,24 +66,35 @@ def make_crate(name, bins, features=("rust_1_83", "alloc")):
     #[path]). Returns crate dir."""
     kv.link_repo()
     d = os.path.join(GEN, name)
-    os.makedirs(os.path.join(d, "src", "bin"), exist_ok=True)
-    os.makedirs(os.path.join(d, ".cargo"), exist_ok=True)
-    write_if_changed(os.path.join(d, ".cargo", "config.toml"), "[net]\noffline = true\n")
-    shutil.copy(os.path.join(kv.HARNESS, "src", "common.rs"), os.path.join(d, "src", "common.rs"))
-    lock_src = os.path.join(kv.REPO, "Cargo.lock")
-    if os.path.exists(lock_src):
-        shutil.copy(lock_src, os.path.join(d, "Cargo.lock"))
-    sect = []
-    keep = set()
-    for b, src in bins.items():
-        write_if_changed(os.path.join(d, "src", "bin", b + ".rs"), src)
-        keep.add(b + ".rs")
-        sect.append('[[bin]]\nname = "%s"\npath = "src/bin/%s.rs"\n' % (b, b))
-    for f in os.listdir(os.path.join(d, "src", "bin")):
-        if f not in keep:
-            os.remove(os.path.join(d, "src", "bin", f))
-    feats = ", ".join('"%s"' % f for f in features)
-    write_if_changed(os.path.join(d, "Cargo.toml"), CARGO_TOML % {"name": name, "features": feats, "bins": "\n".join(sect), "repolink": kv.REPO_LINK})
+    # The dev and the release job of one check (threads of one process) and other checks (other
+    # processes) may lay out the same crate at the same time, and the directory may hold the
+    # programs of an earlier run of another tier: one writer at a time, every file replaced
+    # atomically and only when its text differs, and a stale file that somebody else has already
+    # removed is not an error.
+    with kv.Lock("gen_layout_%s.lock" % name):
+        os.makedirs(os.path.join(d, "src", "bin"), exist_ok=True)
+        os.makedirs(os.path.join(d, ".cargo"), exist_ok=True)
+        write_if_changed(os.path.join(d, ".cargo", "config.toml"), "[net]\noffline = true\n")
+        with open(os.path.join(kv.HARNESS, "src", "common.rs")) as f:
+            write_if_changed(os.path.join(d, "src", "common.rs"), f.read())
+        lock_src = os.path.join(kv.REPO, "Cargo.lock")
+        if os.path.exists(lock_src):
+            with open(lock_src) as f:
+                write_if_changed(os.path.join(d, "Cargo.lock"), f.read())
+        sect = []
+        keep = set()
+        for b, src in bins.items():
+            write_if_changed(os.path.join(d, "src", "bin", b + ".rs"), src)
+            keep.add(b + ".rs")
+            sect.append('[[bin]]\nname = "%s"\npath = "src/bin/%s.rs"\n' % (b, b))
+        for f in os.listdir(os.path.join(d, "src", "bin")):
+            if f not in keep:
+                try:
+                    os.remove(os.path.join(d, "src", "bin", f))
+                except FileNotFoundError:
+                    pass
+        feats = ", ".join('"%s"' % f for f in features)
+        write_if_changed(os.path.join(d, "Cargo.toml"), CARGO_TOML % {"name": name, "features": feats, "bins": "\n".join(sect), "repolink": kv.REPO_LINK})
     return d
 
 
